@@ -2191,6 +2191,92 @@ def c05_stageuse(ctx):
     return out
 
 
+def _buffered_sites(ctx, hosts):
+    F = ctx.facts
+    out_ = []
+    for tn in sorted(hosts):
+        tb = F.bodies.get(tn)
+        if tb is None:
+            continue
+        for b in [tb] + F.closures_in(tb, recursive=True):
+            for bb, t in b.calls():
+                if is_coniter_call(t, {'buffered_iter', 'buffered_iter_x'}):
+                    out_.append((tb, b, t))
+    return out_
+
+
+BUFSITE_WHY = ('a buffered pull allocates `chunk_size` slots up front; for a source of unknown length the resolved chunk size is whatever the user '
+               'configured (C15-CHUNKCAP-U), so a huge ChunkSize::Exact / Min makes every worker panic in the allocation (`capacity overflow`) '
+               'where num_threads(1) returns the result')
+
+
+@rule('C15-BUFSITE', 'inventory of the buffered pull sites: each is a place where an unbounded chunk size of an unknown-length source becomes an allocation')
+def c15_bufsite(ctx):
+    """C15-CHUNKCAP-U records that the resolved chunk size has no bound for sources of unknown length (a known finding: the clamp would
+    change the meaning of Exact(c)).  Where that hurts is decided by *how* a task pulls: `next_chunk(_x)` hands out what is there,
+    `buffered_iter(_x)` allocates the whole buffer first.  Every buffered pull site is therefore a finding of its own, keyed by the
+    task - the ones of today's tree are listed in known_findings.json; a kernel that is switched to buffered pulls is a new one."""
+    out = RuleOut('C15-BUFSITE')
+    S = ctx.slots
+    n = 0
+    seen = set()
+    for (tb, b, t) in _buffered_sites(ctx, S.tasks):
+        n += 1
+        # keyed by the kernel (its source file), not by the function: renaming or splitting the task is not a new finding
+        stem = (b.file or tb.file or '').rsplit('/', 1)[-1].rsplit('.', 1)[0]
+        key = 'C15-BUFSITE/' + (stem or key_of(tb))
+        if key in seen:
+            continue
+        seen.add(key)
+        out.inst(key, False, method(t), sample={'task': key_of(tb), 'pull': method(t)})
+        out.fail(key, '%s pulls through `%s`: %s' % (key_of(tb), method(t), BUFSITE_WHY), b.where(t.get('line')))
+    out.count('buffered_pull_sites', n)
+    out.floor('tasks', len(S.tasks), 6 if not ctx.fixture else 0)
+    return out
+
+
+@rule('C07-BUFSITE', 'the unordered-collect tasks pull with next_chunk_x: no buffered pull (an up-front allocation of an unbounded chunk size) in them')
+def c07_bufsite(ctx):
+    out = RuleOut('C07-BUFSITE')
+    _, frag = ordered_tasks(ctx)
+    n = 0
+    for (tb, b, t) in _buffered_sites(ctx, frag):
+        n += 1
+        key = 'C07-BUFSITE/' + key_of(tb)
+        out.inst(key, False, method(t))
+        out.fail(key, '%s (a collect_x task) pulls through `%s`: %s - collect_x no longer returns the elements for these parameters' % (key_of(tb), method(t), BUFSITE_WHY), b.where(t.get('line')))
+    for tn in frag:
+        out.inst('C07-BUFSITE/%s/ok' % key_of(ctx.facts.bodies[tn]), True, 'no buffered pull')
+    out.floor('collect_x_tasks', len(frag), 1 if not ctx.fixture else 0)
+    return out
+
+
+@rule('C13-BUFSITE', 'the tasks that write into the positional bag (kept in ManuallyDrop across the run) make no buffered pull: a library panic there leaks the bag')
+def c13_bufsite(ctx):
+    """`map_col` leaks its bag on unwind by design, on the assumption that only a user closure can panic inside the run.  A buffered
+    pull in its task is a library panic for a configured chunk size (C15-BUFSITE): the bag - with the caller's earlier elements in a
+    collect_into target - is then leaked although no closure panicked."""
+    from .rules_struct import BAG_HEADS
+    out = RuleOut('C13-BUFSITE')
+    F = ctx.facts
+    S = ctx.slots
+    hosts = set()
+    for (bn, bb), (clo, fns) in S.task_of_site.items():
+        b = F.bodies[bn]
+        if any(d['head'] in BAG_HEADS or (d['head'].startswith('adt:std::mem::ManuallyDrop') and any(h.split(':', 1)[1] in d['ty'] for h in BAG_HEADS)) for d in b.locals.values()):
+            hosts |= set(fns)
+    n = 0
+    for (tb, b, t) in _buffered_sites(ctx, hosts):
+        n += 1
+        key = 'C13-BUFSITE/' + key_of(tb)
+        out.inst(key, False, method(t))
+        out.fail(key, '%s writes into the bag that is leaked on unwind and pulls through `%s`: %s - and the ManuallyDrop bag, with everything in it, is leaked without any closure having panicked' % (key_of(tb), method(t), BUFSITE_WHY), b.where(t.get('line')))
+    for tn in sorted(hosts):
+        out.inst('C13-BUFSITE/%s/ok' % key_of(F.bodies[tn]), True, 'no buffered pull')
+    out.floor('bag_tasks', len(hosts), 1 if not ctx.fixture else 0)
+    return out
+
+
 @rule('C05-ENTRY', 'a parallel kernel entry only wires the run: on its parallel route it neither pulls from the source nor calls a stage closure itself')
 def c05_entry(ctx):
     """Every per-element rule (C05-VISIT, C05-FEED, C05-ACCEPT, C01-KEY ..) is about the worker tasks and the sequential kernels.
